@@ -49,11 +49,11 @@ _BAD_MD = {"metadata_type": "no_such_metadata_type_vp"}
 _COLL = {"atlas": ("Jets", "xAOD::Jet"), "cms_aod": ("Muons", "reco::Muon"), "cms_miniaod": ("Muons", "pat::Muon")}
 
 
-def _query(backend, md_list, body="j.pt()"):
+def _query(backend, md_list, body="j.pt()", bank='"bk1"'):
     src = 'EventDataset("vp")'
     for m in reversed(md_list):
         src = "MetaData(%s, %r)" % (src, m)
-    return 'Select(%s, lambda e: e.%s("bk1").Select(lambda j: %s))' % (src, _COLL[backend][0], body)
+    return 'Select(%s, lambda e: e.%s(%s).Select(lambda j: %s))' % (src, _COLL[backend][0], bank, body)
 
 
 def _run_op(op, execs, outdir):
@@ -69,9 +69,12 @@ def _run_op(op, execs, outdir):
     if op["out"] == "mfail":
         md = md + [_BAD_MD]
     body = "j.pt()"
+    bank = '"bk1"'
     if op["out"] == "tfail":
-        body = "(1 < j.pt() < 2)"       # comparison chains are refused during translation
-    res = translate.translate_source(_query(backend, md, body), backend, outdir, exe=exe)
+        body = "(1 < j.pt() < 2)"       # comparison chains are refused during translation (write_cpp_files)
+    if op["out"] == "rfail":
+        bank = ""                       # a collection without its bank is refused by the client-side rewrite
+    res = translate.translate_source(_query(backend, md, body, bank), backend, outdir, exe=exe)
     shutil.rmtree(outdir, ignore_errors=True)
     return res["outcome"]
 
@@ -176,7 +179,7 @@ def run(tier, hists_override=None):
     hists = sorted(uniq, key=len)
     total = len(hists)
     exhaustive = True
-    cap = 2200 if tier == "quick" else 12000
+    cap = 3800 if tier == "quick" else 14000
     if total > cap:
         rnd = random.Random(common.seed())
         short = [h for h in hists if len(h) <= 2]
@@ -217,7 +220,7 @@ def run(tier, hists_override=None):
         "traces_validated_against_impl": len(hists),
         "evaluations": len(recs),
         "distinct_nontrivial": len(changing),
-        "rule": "histories: every sequence of operations (5 metadata kinds x ok/translation-failure/metadata-failure x same/other/other-backend executor) "
+        "rule": "histories: every sequence of operations (5 metadata kinds x ok / failure in translation / failure in the client-side rewrite / failure in metadata x same/other/other-backend executor) "
                 "up to the MaxLen of %s, enumerated by TLC (%d, exhaustive=%s); each followed by %d probes; non-trivial = the history declares "
                 "something (method type, enum, blocks, extended metadata); distinct by history" % (cfg, total, exhaustive, len(PROBES)),
         "exhaustive": exhaustive,
